@@ -216,6 +216,96 @@ theorem C03_parenthesised_nth_unconditional {d : Doc} (wf : WF d) (cfg : ECfg) (
   C03_parenthesised_nth wf cfg hns (PathSem.hashInj_holds wf hattr cfg) regexOk limit sdf pa hp lex
     n N hn hlit st o hb c hc
 
+open XPathV.PathSem XPathV.PredSem XPathV.PosSem in
+/-- **C03, `position()` / `last()` after other location steps** (the repaired `predInput` defect):
+for every input path `q` of the C02 fragment, the step `child::a` and a first predicate `cond` of
+the fragment `PosCond` — comparisons among `position()`, `last()`, number literals and paths of the
+C02 fragment (`position() op n`, `position() = last()`, `. = last()`, `@k <= position()`), boolean
+predicates of the C02 fragment, combined with `and` / `or` / `not(…)` in any order
+(`[b and position() op n]`, `[position() op n and b]`, `[@k or position() = n]`,
+`[not(c) and . = last()]`) — the plan the builder makes of `q/child::a[cond]` (plain filter or merge
+rewrite) selects exactly the oracle's node set, and these are the candidates `x` of an input node
+`p` on which the oracle's reading of `cond` at `x`, with the 1-based position of `x` among the
+candidates of `p` and the number of those candidates as context position and size, is true.
+No numeric hypothesis: every condition of the fragment is boolean-valued, and both sides compute the
+same comparisons. -/
+theorem C03_position_after_steps {d : Doc} (wf : WF d) (cfg : ECfg) (hns : cfg.nsIface = true)
+    (hinj : HashInj d cfg) (regexOk : RegexOk) (limit : Nat) (a : AxisInfo) (ha : a.axis = "child")
+    (q : Ast) (hq : Frag true q) (cond : Ast) (hcond : PosCond cond) (st : BState) (o : BOut)
+    (hb : build regexOk limit true false (.filter (.axis a q) cond) {} st = .ok o)
+    (c : Ref) (hc : validRef d c = true) :
+    ∃ out ns g origins g0, sel (F := F) d cfg o.q c = .ok out ∧
+      Spec.eval (F := F) d (.filter (.axis a q) cond) ⟨c, 1, 1⟩ = .ok (.val (.nodes ns) g) ∧
+      Spec.eval (F := F) d q ⟨c, 1, 1⟩ = .ok (.val (.nodes origins) g0) ∧
+      (∀ x, x ∈ refs out ↔ x ∈ ns) ∧
+      (∀ x, x ∈ ns ↔ ∃ p ∈ origins, ∃ k, (childCands d cfg a p)[k]? = some x ∧
+        condTruth F d cond x (k + 1) (childCands d cfg a p).length = true) :=
+  PosSem.C03_after_steps wf cfg hns hinj regexOk limit a ha q hq cond hcond st o hb c hc
+
+open XPathV.PathSem XPathV.PredSem XPathV.PosSem in
+/-- `C03_position_after_steps` without the `HashInj` hypothesis (`hashInj_holds`) -/
+theorem C03_position_after_steps_unconditional {d : Doc} (wf : WF d) (cfg : ECfg)
+    (hns : cfg.nsIface = true) (hattr : AttrTriplesDistinct d) (regexOk : RegexOk) (limit : Nat)
+    (a : AxisInfo) (ha : a.axis = "child") (q : Ast) (hq : Frag true q) (cond : Ast)
+    (hcond : PosCond cond) (st : BState) (o : BOut)
+    (hb : build regexOk limit true false (.filter (.axis a q) cond) {} st = .ok o)
+    (c : Ref) (hc : validRef d c = true) :
+    ∃ out ns g origins g0, sel (F := F) d cfg o.q c = .ok out ∧
+      Spec.eval (F := F) d (.filter (.axis a q) cond) ⟨c, 1, 1⟩ = .ok (.val (.nodes ns) g) ∧
+      Spec.eval (F := F) d q ⟨c, 1, 1⟩ = .ok (.val (.nodes origins) g0) ∧
+      (∀ x, x ∈ refs out ↔ x ∈ ns) ∧
+      (∀ x, x ∈ ns ↔ ∃ p ∈ origins, ∃ k, (childCands d cfg a p)[k]? = some x ∧
+        condTruth F d cond x (k + 1) (childCands d cfg a p).length = true) :=
+  C03_position_after_steps wf cfg hns (PathSem.hashInj_holds wf hattr cfg) regexOk limit a ha q hq
+    cond hcond st o hb c hc
+
+open XPathV.PathSem XPathV.PredSem XPathV.PosSem in
+/-- **`[b and position() op n]` / `[position() op n and b]` / `[b or position() op n]` /
+`[position() op n or b]`** (`s : MixShape`), `b` a boolean predicate of the C02 fragment: the built
+plan selects exactly the oracle's node set — the candidates `x` of an input node `p` such that `b`
+holds at `x` and (resp. or) the 1-based position of `x` among the candidates of `p` stands in the
+relation `op` to the literal -/
+theorem C03_bool_with_position {d : Doc} (wf : WF d) (cfg : ECfg) (hns : cfg.nsIface = true)
+    (hinj : HashInj d cfg) (regexOk : RegexOk) (limit : Nat) (a : AxisInfo) (ha : a.axis = "child")
+    (q : Ast) (hq : Frag true q) (s : MixShape) (b : Ast) (hbf : Frag false b) (cop : Spec.CmpOp)
+    (pfx lex : String) (st : BState) (o : BOut)
+    (hb : build regexOk limit true false
+      (.filter (.axis a q) (s.ast b (PosForm.posCmp cop pfx lex).ast)) {} st = .ok o)
+    (c : Ref) (hc : validRef d c = true) :
+    ∃ out ns g origins g0, sel (F := F) d cfg o.q c = .ok out ∧
+      Spec.eval (F := F) d (.filter (.axis a q) (s.ast b (PosForm.posCmp cop pfx lex).ast)) ⟨c, 1, 1⟩ =
+        .ok (.val (.nodes ns) g) ∧
+      Spec.eval (F := F) d q ⟨c, 1, 1⟩ = .ok (.val (.nodes origins) g0) ∧
+      (∀ x, x ∈ refs out ↔ x ∈ ns) ∧
+      (∀ x, x ∈ ns ↔ ∃ p ∈ origins, ∃ k, (childCands d cfg a p)[k]? = some x ∧
+        s.comb (holds (F := F) d b x)
+          (Spec.cmpNum cop (ofNat (k + 1) : F) (Spec.strToNum lex)) = true) :=
+  PosSem.C03_bool_with_position wf cfg hns hinj regexOk limit a ha q hq s b hbf cop pfx lex st o hb c hc
+
+open XPathV.PosSem in
+/-- **builder level**: in the plan of `X[cond]`, every `position()` / `last()` call of the condition
+that is not inside a nested filter's own condition (`posBound`) has as `firstInput` the step
+recorded when `X` was built — at any depth, after any number of location steps; for an axis step `X`
+that is the plan of `X` itself.  Covers every condition, e.g. `a[count(b) = position()]` -/
+theorem C03_position_fi_is_filtered_step (regexOk : RegexOk) (limit : Nat) (snt sdf : Bool)
+    (inp cond : Ast) (fl : Flags) (st : BState) (o : BOut)
+    (h : build regexOk limit snt sdf (.filter inp cond) fl st = .ok o) :
+    ∃ st1 io co,
+      build regexOk limit snt sdf inp { fl with filter := true, smartDesc := fl.smartDesc && sdf } st1 = .ok io ∧
+      build regexOk limit snt sdf cond fl ⟨io.st.depth, io.st.firstInput, io.st.firstInput⟩ = .ok co ∧
+      (∀ step, io.st.firstInput = some step → posBound step co.q = true) ∧
+      (∀ a q, inp = .axis a q → posBound io.q co.q = true) :=
+  build_position_fi_is_filtered_step regexOk limit snt sdf inp cond fl st o h
+
+open XPathV.PosSem in
+/-- `build` hands the builder's `predInput` back unchanged, and whatever is built while it is
+`some t` counts `position()` / `last()` in `t` -/
+theorem C03_predInput_threaded (regexOk : RegexOk) (limit : Nat) (snt sdf : Bool) (ast : Ast)
+    (fl : Flags) (st : BState) (o : BOut) (h : build regexOk limit snt sdf ast fl st = .ok o) :
+    o.st.predInput = st.predInput ∧ ∀ t, st.predInput = some t → posBound t o.q = true :=
+  ⟨build_predInput regexOk limit snt sdf ast fl st o h,
+   fun t ht => build_posBound regexOk limit snt sdf ast fl st o t ht h⟩
+
 open XPathV.PosSem in
 /-- `position()` and `last()` as the engine computes them on a child step are the proximity
 position and the context size -/
